@@ -161,7 +161,13 @@ func vC16Mismatch(c *vCtx) {
 	}
 	// (c) other format version patched into a valid stream
 	for i, k := range kinds {
-		for _, ver := range []uint32{0, 2, 0xFFFFFFFF} {
+		// every version that differs from 1 in exactly one bit (0, 3, 5, 9, ... 0x10001, ...,
+		// 0x80000001), plus 2, the byte-swapped 1, each half set and all ones
+		vers := []uint32{2, 0x01000000, 0xFFFF, 0x10000, 0x101, 0xFFFF0001, 0xFFFFFFFF}
+		for b := 0; b < 32; b++ {
+			vers = append(vers, 1^(1<<uint(b)))
+		}
+		for _, ver := range vers {
 			d := append([]byte(nil), streams[i]...)
 			if len(d) < 8 {
 				continue
@@ -169,10 +175,15 @@ func vC16Mismatch(c *vCtx) {
 			binary.LittleEndian.PutUint32(d[4:8], ver)
 			try(fmt.Sprintf("version:%d", ver), k.name, k.fresh(), k.read, d)
 		}
-		// corrupted magic
+		// corrupted magic: all bits of the first byte, and every single bit of the four bytes
 		d := append([]byte(nil), streams[i]...)
 		d[0] ^= 0xFF
 		try("magic", k.name, k.fresh(), k.read, d)
+		for b := 0; b < 32 && len(streams[i]) >= 4; b++ {
+			d := append([]byte(nil), streams[i]...)
+			d[b/8] ^= 1 << uint(b%8)
+			try("magic", k.name, k.fresh(), k.read, d)
+		}
 	}
 	c.Sample("stream of kind=flat -> receiver kind=hnsw; receiver differing in one parameter; version 0/2 patched")
 	c.Bound = "mismatch matrix complete"
